@@ -13,6 +13,7 @@ mod c15;
 mod c16b;
 mod c10b;
 mod c12b;
+mod c12c;
 mod c06;
 mod c07;
 mod c08;
@@ -42,6 +43,7 @@ fn main() {
     all.extend(c16b::witnesses());
     all.extend(c10b::witnesses());
     all.extend(c12b::witnesses());
+    all.extend(c12c::witnesses());
     all.extend(c06::witnesses());
     all.extend(c07::witnesses());
     all.extend(c08::witnesses());
